@@ -58,6 +58,7 @@ type call struct {
 	pid   peer.ID
 	ctx   context.Context
 	reply chan reply
+	gid   int64 // goroutine that made the call
 }
 
 type sim struct {
@@ -73,7 +74,7 @@ type source struct {
 
 func (s *source) FetchAll(ctx context.Context) ([]*model.ProviderInfo, error) {
 	atomic.AddInt64(&s.sim.fetchAll[s.idx-1], 1)
-	c := &call{src: s.idx, all: true, ctx: ctx, reply: make(chan reply, 1)}
+	c := &call{src: s.idx, all: true, ctx: ctx, reply: make(chan reply, 1), gid: goid()}
 	s.sim.arrive <- c
 	r := <-c.reply
 	return r.infos, r.err
@@ -81,7 +82,7 @@ func (s *source) FetchAll(ctx context.Context) ([]*model.ProviderInfo, error) {
 
 func (s *source) Fetch(ctx context.Context, pid peer.ID) (*model.ProviderInfo, error) {
 	atomic.AddInt64(&s.sim.fetch[s.idx-1], 1)
-	c := &call{src: s.idx, pid: pid, ctx: ctx, reply: make(chan reply, 1)}
+	c := &call{src: s.idx, pid: pid, ctx: ctx, reply: make(chan reply, 1), gid: goid()}
 	s.sim.arrive <- c
 	r := <-c.reply
 	return r.info, r.err
